@@ -1160,7 +1160,7 @@ Example es_example_all_filtered :
   es_run nat 2 [[]; []] = ESEmpty.
 Proof. vm_compute. reflexivity. Qed.
 
-(* a later generation without survivors, then a population of NaN candidates (the code as it is):
+(* a later generation without survivors, then a population whose acquisition values are NaN:
    the best earlier survivor is still returned *)
 Example es_example_later_generation_empty :
   es_run nat 2 [[(1%nat, Some (3#1)); (2%nat, Some (1#1))]; []] = ESPoint 2%nat (Some (1#1)) /\
